@@ -1,5 +1,7 @@
 SPECIFICATION Spec
 CONSTANTS MaxLines = 3
+ Parts = 1
+ PartNo = 0
 INVARIANT TwoFormulations
 INVARIANT NamesNonEmpty
 INVARIANT Compositional
